@@ -295,7 +295,8 @@ class Partitioned(struct.PyTreeNode, AxisMetadata[A]):
 
   def to_nnx_metadata(self) -> dict[str, Any]:
     """Return a dict of metadata that can translate into an `nnx.Variable`."""
-    metadata = vars(self)
+    # a copy: vars(self) is the instance dict of this box
+    metadata = dict(vars(self))
     metadata['sharding'] = metadata.pop('names')
     return metadata
 
